@@ -173,7 +173,7 @@ def hang_verdict(pid, hang):
         v = (p.stdout.strip().split('\n') or [''])[0]
     except Exception:
         v = ''
-    if v.split(' ', 1)[0] == 'DIS':
+    if v.split(' ', 1)[0] == 'DIS' and 'model=unparsable:' not in v:   # (`unparsable:` = the driver has no rule for this line)
         return (line, v, 'hang on an input outside the property\'s quantifier (driver: %s)' % v[:200]), False
     return (line, 'FAIL 1 hang clause=outcome:hang', 'clause=outcome:hang (the call did not return within the per-case limit)'), True
 
